@@ -50,7 +50,11 @@ int main(void) {
       size_t n = (dp < dq ? dp : dq) + 1;
       /* resultant: fresh, pre-used, aliased with either operand */
       printf("R ");
-      { lp_polynomial_t* r = lp_polynomial_new(pio_ctx); lp_polynomial_resultant(r, P, Q); pio_print(r); lp_polynomial_delete(r); }
+      /* the first call works on operands that no API call has touched since they were built (with VERIF_STALE=1 they
+         are external polynomials still laid out for another order: the operation itself has to re-order BOTH) */
+      { lp_polynomial_t* Pf = pio_new(vtok[2]); lp_polynomial_t* Qf = pio_new(vtok[3]);
+        lp_polynomial_t* r = lp_polynomial_new(pio_ctx); lp_polynomial_resultant(r, Pf, Qf); pio_print(r); lp_polynomial_delete(r);
+        lp_polynomial_delete(Pf); lp_polynomial_delete(Qf); }
       putchar(' ');
       { lp_polynomial_t* r = pio_new("7*x0^2*x1^1+-3*x2^3+11"); lp_polynomial_resultant(r, P, Q); pio_print(r); lp_polynomial_delete(r); }
       putchar(' ');
@@ -58,10 +62,14 @@ int main(void) {
       putchar(' ');
       { lp_polynomial_t* r = lp_polynomial_new_copy(Q); lp_polynomial_resultant(r, P, r); pio_print(r); lp_polynomial_delete(r); }
       /* psc */
-      { lp_polynomial_t** l = new_list(n, NULL); lp_polynomial_psc(l, P, Q); print_list("PSC", l, n); del_list(l, n); }
+      { lp_polynomial_t* Pf = pio_new(vtok[2]); lp_polynomial_t* Qf = pio_new(vtok[3]);
+        lp_polynomial_t** l = new_list(n, NULL); lp_polynomial_psc(l, Pf, Qf); print_list("PSC", l, n); del_list(l, n);
+        lp_polynomial_delete(Pf); lp_polynomial_delete(Qf); }
       { lp_polynomial_t** l = new_list(n, "5*x0^3*x2^1+-2*x1^2+9"); lp_polynomial_psc(l, P, Q); print_list("PSCU", l, n); del_list(l, n); }
       /* subresultants */
-      { lp_polynomial_t** l = new_list(n, NULL); lp_polynomial_subres(l, P, Q); print_list("SUB", l, n); del_list(l, n); }
+      { lp_polynomial_t* Pf = pio_new(vtok[2]); lp_polynomial_t* Qf = pio_new(vtok[3]);
+        lp_polynomial_t** l = new_list(n, NULL); lp_polynomial_subres(l, Pf, Qf); print_list("SUB", l, n); del_list(l, n);
+        lp_polynomial_delete(Pf); lp_polynomial_delete(Qf); }
       { lp_polynomial_t** l = new_list(n, "4*x0^1*x1^1*x2^1+-6*x0^5+1"); lp_polynomial_subres(l, P, Q); print_list("SUBU", l, n); del_list(l, n); }
       lp_polynomial_delete(P); lp_polynomial_delete(Q);
       end_case(); continue;
